@@ -140,13 +140,19 @@ func runLib(cs c16Case) (out string, err error, snap fsx.Snap, usage bool) {
 			default:
 				return "", nil, fsx.Snapshot(j.Target), true
 			}
-		case "--massive":
+		case "--massive", "-m":
 			massive = true
-		case "--dry-run":
+		case "--massive-timeout", "--mt":
+			i++
+			massive = true
+			if strings.HasPrefix(cs.Args[i], "-") || cs.Args[i] == "0" || cs.Args[i] == "0s" {
+				return "", nil, fsx.Snapshot(j.Target), true
+			}
+		case "--dry-run", "-d":
 			dry = true
 		case "--strict":
 			strict = true
-		case "-e":
+		case "-e", "--extension":
 			i++
 			exts = append(exts, cs.Args[i])
 		}
@@ -173,7 +179,7 @@ func runLib(cs c16Case) (out string, err error, snap fsx.Snap, usage bool) {
 			}
 		}()
 		rd := strings.NewReader(cs.Doc)
-		switch cs.Cmd {
+		switch canonicalCmd(cs.Cmd) {
 		case "output":
 			err = gtree.OutputFromMarkdown(&buf, rd, opts...)
 		case "mkdir":
@@ -194,6 +200,18 @@ func runLib(cs c16Case) (out string, err error, snap fsx.Snap, usage bool) {
 	return buf.String(), err, fsx.Snapshot(j.Target), false
 }
 
+func canonicalCmd(c string) string {
+	switch c {
+	case "o", "out":
+		return "output"
+	case "m":
+		return "mkdir"
+	case "vf":
+		return "verify"
+	}
+	return c
+}
+
 func sortedLines(s string) string {
 	l := strings.Split(s, "\n")
 	sort.Strings(l)
@@ -209,7 +227,7 @@ func c16Judge(c *rep.Ctx, cs c16Case) {
 	size := len(cs.Args) + len(cs.DocName)
 	massive := false
 	for _, a := range cs.Args {
-		if a == "--massive" {
+		if a == "--massive" || a == "-m" || a == "--massive-timeout" || a == "--mt" {
 			massive = true
 		}
 	}
@@ -369,6 +387,24 @@ func init() {
 				add(c16Case{Cmd: "verify", Doc: d.doc, DocName: d.name, Args: args, Input: "missing", Stdout: "pipe", Target: "dir"})
 				add(c16Case{Cmd: "verify", Doc: d.doc, DocName: d.name, Args: args, Input: "stdin", Extra: "stray", Stdout: "pipe", Target: "dir"})
 			}
+		}
+		// aliases of subcommands and flags, the massive timeout flag, the description template
+		for _, d := range docs[:4] {
+			for _, al := range []string{"o", "out"} {
+				add(c16Case{Cmd: al, Doc: d.doc, DocName: d.name, Input: "stdin", Stdout: "pipe"})
+				add(c16Case{Cmd: al, Doc: d.doc, DocName: d.name, Args: []string{"--format", "json", "-m"}, Input: "file", Stdout: "pipe"})
+			}
+			add(c16Case{Cmd: "output", Doc: d.doc, DocName: d.name, Args: []string{"--massive-timeout", "1h"}, Input: "stdin", Stdout: "pipe"})
+			add(c16Case{Cmd: "output", Doc: d.doc, DocName: d.name, Args: []string{"--mt", "30m", "--format", "yaml"}, Input: "stdin", Stdout: "pipe"})
+			add(c16Case{Cmd: "output", Doc: d.doc, DocName: d.name, Args: []string{"--massive-timeout", "0s"}, Input: "stdin", Stdout: "pipe"})
+			add(c16Case{Cmd: "output", Doc: d.doc, DocName: d.name, Args: []string{"--massive-timeout", "-1s"}, Input: "stdin", Stdout: "pipe"})
+			add(c16Case{Cmd: "m", Doc: d.doc, DocName: d.name, Args: []string{"-d", "--extension", ".go"}, Input: "stdin", Stdout: "pipe", Target: "dir"})
+			add(c16Case{Cmd: "m", Doc: d.doc, DocName: d.name, Args: []string{"-e", ".go", "-e", "b"}, Input: "stdin", Stdout: "pipe", Target: "dir"})
+			add(c16Case{Cmd: "vf", Doc: d.doc, DocName: d.name, Args: []string{"--strict"}, Input: "stdin", Stdout: "pipe", Target: "dir", Pre: map[string]byte{"a/b": 'd', "a/c.go": 'f', "a/x": 'd'}})
+		}
+		if desc, err := exec.Command(cliBin(), "template", "--description").Output(); err == nil {
+			add(c16Case{Cmd: "output", Doc: string(desc), DocName: "description-template", Input: "stdin", Stdout: "pipe"})
+			add(c16Case{Cmd: "output", Doc: string(desc), DocName: "description-template", Args: []string{"--format", "json"}, Input: "stdin", Stdout: "pipe"})
 		}
 		c.Bound("cases", fmt.Sprint(len(cases)))
 		for _, cs := range cases {
